@@ -6,7 +6,7 @@ use crate::{
     statement::Statement,
     visitor::{VisitWith, Visitor, VisitorMut},
 };
-use boa_interner::{Interner, ToIndentedString};
+use boa_interner::{Interner, ToIndentedString, ToInternedString};
 use core::ops::ControlFlow;
 use std::ops::Deref;
 
@@ -177,11 +177,34 @@ impl Deref for StatementList {
 
 impl ToIndentedString for StatementList {
     fn to_indented_string(&self, interner: &Interner, indentation: usize) -> String {
+        use crate::expression::{Expression, literal::LiteralKind};
+
         let mut buf = String::new();
+        // String literal statements at the start of the list are directives once printed:
+        // a `"use strict"` that was not one in the source (it was written with an escape
+        // sequence, so the list is not strict) must not become one.
+        let mut directive_position = true;
         // Print statements
         for item in &*self.statements {
+            let mut printed = None;
+            if directive_position {
+                if let StatementListItem::Statement(stmt) = item
+                    && let Statement::Expression(Expression::Literal(lit)) = &**stmt
+                    && let LiteralKind::String(sym) = lit.kind()
+                {
+                    if !self.strict && interner.resolve_expect(*sym).utf8() == Some("use strict") {
+                        printed = Some(format!(
+                            "{}({});",
+                            "    ".repeat(indentation),
+                            lit.to_interned_string(interner)
+                        ));
+                    }
+                } else {
+                    directive_position = false;
+                }
+            }
             // We rely on the node to add the correct indent.
-            buf.push_str(&item.to_indented_string(interner, indentation));
+            buf.push_str(&printed.unwrap_or_else(|| item.to_indented_string(interner, indentation)));
 
             buf.push('\n');
         }
